@@ -2,6 +2,7 @@
   C09 — the default codec is the rate fixed by the selection rule; API layers agree.
 -/
 import RSVerif.Proofs.Envelope
+import RSVerif.Proofs.SrcEnvelopeSpec
 
 namespace RS
 
@@ -9,6 +10,30 @@ namespace RS
 theorem rate_rule' (k r : Nat) (b : Bool) (h : useHighRate k r = .ok b) :
     b = (decide (npow2 k > npow2 r) || (decide (npow2 k = npow2 r) && decide (k ≤ r))) :=
   rate_rule h
+
+open RS.Src RS.Rust in
+/-- the same rule for `use_high_rate` AS TRANSLATED FROM TODAY'S SOURCE (Gen/SrcEnvelope.lean, regenerated
+    on every run): it never overflows, fails exactly outside the default envelope, and otherwise answers
+    `Ok(high)` with `high` given by the rule -/
+theorem source_rate_rule (k r : Nat) :
+    (∃ v, use_high_rate k r = some v) ∧
+    (∀ b, use_high_rate k r = some (Res.Ok b) →
+      supportsDefault k r = true ∧
+      b = (decide (npow2 k > npow2 r) || (decide (npow2 k = npow2 r) && decide (k ≤ r)))) ∧
+    ((∀ b, use_high_rate k r ≠ some (Res.Ok b)) → supportsDefault k r = false) := by
+  rw [src_use_high_rate]
+  refine ⟨⟨_, rfl⟩, ?_, ?_⟩
+  · intro b hb
+    cases h : useHighRate k r with
+    | error e => simp [h, resOfBool] at hb
+    | ok b' =>
+      simp only [h, resOfBool, Option.some.injEq, Res.Ok.injEq] at hb
+      subst hb
+      exact ⟨by simp [supportsDefault, h], rate_rule h⟩
+  · intro hne
+    cases h : useHighRate k r with
+    | error e => simp [supportsDefault, h]
+    | ok b' => exact absurd (by simp [h, resOfBool]) (hne b')
 
 /-- a default-flavour encoder is, from construction on, the dedicated encoder of the chosen rate
     (same inner state as the dedicated constructor given the same working memory) -/
